@@ -110,11 +110,11 @@ Theorem C16_frames_same : forall C l,
 Proof. exact frames_same. Qed.
 Print Assumptions C16_frames_same.
 
-(* FULL STATEMENT (refuted below; recorded findings C16-display-suggestions, C16-str-failure):
+(* FULL STATEMENT (refuted below; recorded finding C16-display-suggestions):
      forall C fs e, ei_text C fs e = std_text (std_tb C fs e).
    Proved for every call chain (recursion included, since the fix: of TracebackInfo.get_formatted)
-   and the ordinary kind of exception (str(value) works, the interpreter shows exactly
-   Type: str(value)): *)
+   and every exception for which the interpreter adds no display-time suggestion (it shows
+   exactly Type: message, message = str(value) or the placeholder when __str__ raises): *)
 Theorem C16_format_partial : forall C fs e,
   plain_exc e = true -> ei_text C fs e = std_text (std_tb C fs e).
 Proof. exact format_partial. Qed.
@@ -125,10 +125,9 @@ Theorem C16_format_refuted_suggestion :
 Proof. exact format_refuted_hint. Qed.
 Print Assumptions C16_format_refuted_suggestion.
 
-Theorem C16_format_refuted_str_failure :
-  exists fs e, hint_of e <> None /\ ei_text py_cc fs e <> std_text (std_tb py_cc fs e).
-Proof. exact format_refuted_str. Qed.
-Print Assumptions C16_format_refuted_str_failure.
+(* an exception whose __str__ raises is inside the theorem since the fix: of _some_str *)
+Example str_failure_is_plain : plain_exc nostr_exc = true /\ ex_str nostr_exc = None.
+Proof. exact str_failure_plain. Qed.
 
 (* whatever the call chain and the exception: ExceptionInfo's text is the interpreter's rendering
    (identical entries folded) of the interpreter's entries and type with boltons' own message text *)
